@@ -117,6 +117,13 @@ class LockModel:
 
     def method(self, rec, name, required=True):
         c = [f for f in self.fns.values() if f.get('record') == rec and f['short'] == name]
+        if len(c) > 1:
+            # overloads of an API function (a const-qualified twin, a variant with a defaulted extra parameter): the original
+            # signature is the anchor, the others get the same role (assign_roles) and are judged by the same rules
+            nc = [f for f in c if not f.get('const')] or c
+            nc.sort(key=lambda f: (len(f['params']), f['key']))
+            self.__dict__.setdefault('overloads', {})[nc[0]['key']] = [f for f in c if f is not nc[0]]
+            return nc[0]
         if len(c) != 1:
             if required:
                 raise AnalysisBroken('anchor %s::%s: %d definitions' % (rec, name, len(c)))
@@ -215,6 +222,19 @@ class LockModel:
         else:
             owning = False
         return {'guard': g, 'fields': vals, 'owning': owning, 'ctor': r[2], 'args': r[3]}
+
+    def lock_type_rule(self):
+        """C01.TYPE: a lock object is never copied or moved.  Its word names the grants (and, for the queue lock, the queue
+        nodes) of one object: a copy made while the source is held or queued on carries grants nobody will release and node
+        addresses that will be freed; an assignment overwrites the grants of the target."""
+        rec = self.facts.records.get(self.rec_name)
+        if rec is None:
+            return
+        bad = [m for m in rec.get('methods', []) if m.get('kind') in ('copy_ctor', 'move_ctor', 'copy_assign', 'move_assign') and not m.get('deleted')]
+        self.sink.emit('C01.TYPE', 'ok' if not bad else 'violated', '%s is neither copyable nor movable' % self.cls, '%s:%s' % (rec['file'], (bad[0].get('line') if bad else rec['line'])),
+                       'copy / move operations deleted' if not bad else
+                       '%s is available: a copy of a held (or queued-on) lock carries its grants and node addresses; an assignment wipes the target\'s' % ', '.join(m['kind'] for m in bad))
+
 
     def truth(self, v, path):
         """is value v (pointer / bool) definitely non-null on this path? True/False/None"""
@@ -495,6 +515,25 @@ class WordLockRules(LockModel):
                           % (self.cls, self.release['CompositeGuard'], self.release['SGuard']))
         R[self.method(self.guards['SIXGuard']['name'], 'UpgradeToX')['key']] = ('upgrade', 'X')
         R[self.method(self.guards['XGuard']['name'], 'DowngradeToSIX')['key']] = ('downgrade', 'SIX')
+        # any further member of an owning guard that returns a guard of another mode (a DowngradeToS, an UpgradeToSIX ... added
+        # next to the two conversions the library has) is a conversion between those two modes: judged by the same transition
+        # rules, not rejected as an unknown writer
+        gmode = {'SGuard': 'S', 'SIXGuard': 'SIX', 'XGuard': 'X'}
+        for f in self.fns.values():
+            gfrom = self.guard_of_record(f.get('record') or '')
+            if f['key'] in R or gfrom not in gmode or f['kind'] != 'method' or f.get('const') or f.get('move_assign') or f.get('copy_assign'):
+                continue
+            gto = self.guard_of_record((f.get('ret') or {}).get('ct', '').replace('const ', '').strip())
+            if gto in gmode and gto != gfrom:
+                R[f['key']] = ('convert', (gfrom, gto))
+        # a further member of the lock class that returns a guard (a non-blocking TryLockX(), a variant of LockS with an option)
+        # is an acquisition of that mode: every granting write is held to the admission rules, a path without one returns an empty guard
+        for f in self.fns.values():
+            if f['key'] in R or f.get('record') != self.rec_name or f['kind'] != 'method' or f.get('const'):
+                continue
+            gto = self.guard_of_record((f.get('ret') or {}).get('ct', '').replace('const ', '').strip())
+            if gto in gmode:
+                R[f['key']] = ('tryacq', gmode[gto])
         if self.optimistic:
             og = self.guards['OptGuard']['name']
             for mode, name in (('S', 'TryLockS'), ('SIX', 'TryLockSIX'), ('X', 'TryLockX')):
@@ -503,6 +542,11 @@ class WordLockRules(LockModel):
             R[self.method(self.rec_name, 'GetVersion')['key']] = ('read', None)
             R[self.method(og, 'VerifyVersion')['key']] = ('read', None)
             R[self.method(self.guards['CompositeGuard']['name'], 'VerifyVersion')['key']] = ('read', None)
+
+        for k, others in self.__dict__.get('overloads', {}).items():
+            if k in R:
+                for f in others:
+                    R.setdefault(f['key'], R[k])
 
     # ------------------------------------------------------------------ row specifications
     def spec_check(self, spec, fn, p, e, bind=None, tag=''):
@@ -514,13 +558,15 @@ class WordLockRules(LockModel):
         key = '%s %s(%s)%s' % (short(fn['name']), e['op'], self.word, tag)
         loc = loc_of(e)
         r = RowEval(self.ev, p, e, bind)
-        rule_adm = {'ADM:S': 'C01.ADM', 'ADM:SIX': 'C01.ADM', 'ADM:X': 'C01.ADM', 'ADM:S:FREE': 'C13.LOCKEXIT',
+        conv = spec.split(':')[1:] if spec.startswith('CONV:') else None
+        rule_adm = 'C01.CONV' if conv else \
+                   {'ADM:S': 'C01.ADM', 'ADM:SIX': 'C01.ADM', 'ADM:X': 'C01.ADM', 'ADM:S:FREE': 'C13.LOCKEXIT',
                     'UPG': 'C10.UPG', 'DOWN': 'C10.DOWN', 'REL:S': 'C01.REL', 'REL:SIX': 'C01.REL', 'REL:X': 'C01.REL'}[spec]
         if not r.supported:
             self.sink.unsup(rule_adm, key, loc, 'certified value %s is not a single read result' % show(r.pre_sym))
             return
         # plain stores only where the writer excludes every other writer
-        if e['op'] == 'store' and spec not in ('REL:X', 'DOWN'):
+        if e['op'] == 'store' and spec not in ('REL:X', 'DOWN') and not (conv and conv[0] == 'X'):
             self.sink.bad('C01.STORE', key, loc, 'plain store to the lock word in role %s: concurrent RMWs of other holders/requesters are lost' % spec)
             return
         if e['op'] == 'store':
@@ -532,6 +578,9 @@ class WordLockRules(LockModel):
             'REL:SIX': lambda w: w.six == 1 and w.x == 0,
             'REL:X': lambda w: w.x == 1 and w.six == 0 and w.s == (0, 0),
         }.get(spec)
+        holds = {'S': lambda w: w.s[0] >= 1 and w.x == 0, 'SIX': lambda w: w.six == 1 and w.x == 0, 'X': lambda w: w.x == 1 and w.six == 0 and w.s == (0, 0)}
+        if conv:
+            assume = holds[conv[0]]
         n = 0
         worst = None   # (severity, text, undecided)
         self.ev.partial = False
@@ -553,6 +602,16 @@ class WordLockRules(LockModel):
                 need = [('X', pre.x, 0), ('SIX', pre.six, 0), ('S', pre.s, (0, 0))]
             elif spec == 'UPG':
                 need = [('S', pre.s, (0, 0))]
+            elif conv:
+                # the other holders: the certified word without the converter's own grant; the new mode must be admissible on them
+                ox = 0 if conv[0] == 'X' else pre.x
+                osix = 0 if conv[0] == 'SIX' else pre.six
+                os_ = (pre.s[0] - 1, pre.s[1] - 1 if pre.s[1] < INF else INF) if conv[0] == 'S' else pre.s
+                need = [('X', ox, 0)]
+                if conv[1] in ('SIX', 'X'):
+                    need.append(('SIX', osix, 0))
+                if conv[1] == 'X':
+                    need.append(('S', os_, (0, 0)))
             else:
                 need = []
             for nm, got, want in need:
@@ -577,6 +636,13 @@ class WordLockRules(LockModel):
                 same('X:=1', 1, post.x); same('SIX:=0', 0, post.six); same('S', pre.s, post.s); same('rest', pre.rest, post.rest)
             elif spec == 'DOWN':
                 same('X:=0', 0, post.x); same('SIX:=1', 1, post.six); same('S:=0', (0, 0), post.s)
+            elif conv:
+                wx = 1 if conv[1] == 'X' else (0 if conv[0] == 'X' else pre.x)
+                wsix = 1 if conv[1] == 'SIX' else (0 if conv[0] == 'SIX' else pre.six)
+                ws = s_plus(pre.s, (1 if conv[1] == 'S' else 0) - (1 if conv[0] == 'S' else 0))
+                same('X', wx, post.x); same('SIX', wsix, post.six); same('S', ws, post.s)
+                if not (conv[0] == 'X' and getattr(self, 'optimistic', False)):
+                    same('rest', pre.rest, post.rest)      # (an exclusive grant of the optimistic lock ends by publishing a version: C09.VAL)
             elif spec == 'REL:S':
                 same('X', pre.x, post.x); same('SIX', pre.six, post.six)
                 same('S-1', s_plus(pre.s, -1), post.s); same('rest', pre.rest, post.rest)
@@ -597,7 +663,8 @@ class WordLockRules(LockModel):
         what = {'ADM:S': 'guard => X=0; effect S+1 only', 'ADM:SIX': 'guard => X=SIX=0; effect SIX:=1 only',
                 'ADM:X': 'guard => X=SIX=S=0; effect X:=1 only', 'ADM:S:FREE': 'guard => word completely free; effect S+1 only',
                 'UPG': 'owner holds SIX; guard => S=0; one write X:=1,SIX:=0', 'DOWN': 'owner holds X; one write X:=0,SIX:=1,S=0',
-                'REL:S': 'effect S-1 only', 'REL:SIX': 'effect SIX:=0 only', 'REL:X': 'effect X:=0 with SIX=S=0'}[spec]
+                'REL:S': 'effect S-1 only', 'REL:SIX': 'effect SIX:=0 only', 'REL:X': 'effect X:=0 with SIX=S=0'}.get(spec) or \
+            'owner holds %s; guard => %s admissible beside the other holders; one write exchanging the own %s grant for %s' % (conv[0], conv[1], conv[0], conv[1])
         if worst is None:
             self.sink.ok(rule_adm, key + ' ' + spec, loc, '%s — holds on all %d feasible cells' % (what, n))
         elif worst[0] == 2:
@@ -658,6 +725,7 @@ class WordLockRules(LockModel):
         self.who_may_call()
         self.check_spins()
         self.closure_check()
+        self.lock_type_rule()
 
     # ---- closure of the extracted transition system over (abstract word, ghost grant multiset)
     def closure_check(self):
@@ -821,6 +889,32 @@ class WordLockRules(LockModel):
         else:
             self.admit_complete(fn, mode, granting)
 
+    def role_tryacq(self, fn, mode, paths, res):
+        g = {'S': 'SGuard', 'SIX': 'SIXGuard', 'X': 'XGuard'}[mode]
+        n = 0
+        for p in paths:
+            rg = self.ret_guard(p)
+            rows, other = self.rows_of(fn, p)
+            loc = '%s:%s' % (fn['file'], p.ret_line)
+            if rg is None or rg['guard'] != g:
+                self.sink.unsup('C07.FACTORY', short(fn['name']), loc, 'return value is not a %s' % g)
+                continue
+            if not rows:
+                self.expect_rows(fn, p, rows, other, [], 'an empty guard (not granted)')
+                self.sink.emit('C07.FACTORY', 'ok' if rg['owning'] is False else 'violated', '%s without a granting write returns an empty guard' % short(fn['name']), loc,
+                               '' if rg['owning'] is False else 'returned %s although nothing was written to the lock word' % show(p.ret))
+                continue
+            lockptr = rg['fields'].get(self.ptr_field[g])
+            good = rg['owning'] is True and lockptr == S('this')
+            self.sink.emit('C07.FACTORY', 'ok' if good else 'violated', '%s returns owning %s{this} after its granting write' % (short(fn['name']), g), loc,
+                           '' if good else 'returned %s: the grant written to the word has no owner' % show(p.ret))
+            if self.expect_rows(fn, p, rows, other, ['ADM:' + mode], 'owning ' + g):
+                self.spec_check('ADM:' + mode, fn, p, rows[0])
+                self.acq_order(fn, p, rows[0])
+                n += 1
+        if n == 0:
+            self.sink.unsup('C01.ADM', short(fn['name']), fn['file'], 'no granting path found')
+
     def admit_complete(self, fn, mode, granting):
         """C02.ADMIT (necessary for progress): on every word on which the mode is admissible under the compatibility matrix
         some granting path of the blocking acquire is feasible - otherwise the request spins for ever on a state that no
@@ -950,6 +1044,10 @@ class WordLockRules(LockModel):
     def role_downgrade(self, fn, mode, paths, res):
         self.conversion(fn, paths, 'XGuard', 'SIXGuard', 'DOWN')
 
+    def role_convert(self, fn, pair, paths, res):
+        gmode = {'SGuard': 'S', 'SIXGuard': 'SIX', 'XGuard': 'X'}
+        self.conversion(fn, paths, pair[0], pair[1], 'CONV:%s:%s' % (gmode[pair[0]], gmode[pair[1]]))
+
     def conversion(self, fn, paths, gfrom, gto, spec):
         own = self.own_field[gfrom]
         entry = S('this->' + own)
@@ -981,6 +1079,10 @@ class WordLockRules(LockModel):
             n_own += 1
             # source consumed
             final = p.store.get(('field', S('this'), own), entry)
+            if spec.startswith('CONV:') and not rows and rg['owning'] is False and final in (entry, S('this->' + own)):
+                # a Try-conversion that did not succeed: nothing written, the source keeps its grant, the result owns nothing
+                self.sink.ok('C07.CONV', '%s failed attempt leaves the source guard and the lock word as they were' % name, loc, '')
+                continue
             self.sink.emit('C07.CONV', 'ok' if (is_const(final) and final[1] == 0) else 'violated',
                            '%s consumes the source guard' % name, loc,
                            'this->%s = %s at the return' % (own, show(final)))
@@ -995,12 +1097,18 @@ class WordLockRules(LockModel):
             if self.expect_rows(fn, p, rows, other, [spec], 'owning ' + gto):
                 self.sink.ok('C10.NOGAP', '%s exactly one flag-changing write' % name, loc_of(rows[0]), 'no release call, one write')
                 self.spec_check(spec, fn, p, rows[0])
-                if spec == 'UPG':
-                    self.acq_order(fn, p, rows[0])
+                rank = {'S': 0, 'SIX': 1, 'X': 2}
+                up = spec == 'UPG' or (spec.startswith('CONV:') and rank[spec.split(':')[2]] > rank[spec.split(':')[1]])
+                if up:
+                    self.acq_order(fn, p, rows[0])      # the new mode excludes holders the old one admitted: their sections must be visible
                 else:
-                    self.rel_order(fn, p, rows[0])
-                if self.optimistic:
+                    self.rel_order(fn, p, rows[0])      # the new mode admits requesters the old one excluded: the section so far must be visible to them
+                if self.optimistic and not spec.startswith('CONV:'):
                     self.conv_version(fn, p, rows[0], spec, rg)
+                elif self.optimistic and spec.endswith(':X'):
+                    self.conv_version(fn, p, rows[0], 'UPG', rg)       # the new X guard's acquisition version is the certified word's
+                elif self.optimistic and spec.startswith('CONV:X:'):
+                    self.conv_version(fn, p, rows[0], 'DOWN', rg)      # the exclusive grant ends: the guard's new version is published
         if n_own == 0:
             self.sink.unsup('C07.CONV', short(fn['name']), fn['file'], 'no path with an owning source guard')
 
@@ -1079,11 +1187,17 @@ class WordLockRules(LockModel):
             if rel is None:
                 continue     # inline release: the writes are role rows of the destructor / move assignment (C01.WHO covers the rest)
             for f, p, e in self.call_sites(rel):
+                if self.eng.private_helper(f):
+                    continue      # a private helper of a guard class: the call is seen again, and judged, inside its callers
                 key = '%s called from %s' % (short(self.facts.functions[rel]['name']) if rel in self.facts.functions else rel, short(f['name']))
                 ok_fn = f.get('record') == grec and (f['kind'] == 'dtor' or f.get('move_assign'))
-                other_g = [g2 for g2, r2 in self.release.items() if r2 == rel and self.guards[g2]['name'] == f.get('record')]
+                # (a release function shared by two guard classes: the destructor / move assignment of the other one is judged there)
+                other_g = [g2 for g2, r2 in self.release.items() if r2 == rel and self.guards[g2]['name'] == f.get('record') and g2 != g and
+                           (f['kind'] == 'dtor' or f.get('move_assign'))]
                 if not ok_fn and other_g:
                     continue
+                if not ok_fn and f.get('record') == grec and f['kind'] == 'method':
+                    continue      # another member of the same guard class (an early Unlock()): its bookkeeping is C07.MEMBER
                 if not ok_fn:
                     self.sink.bad('C07.WHO', key, '%s:%s' % (f['file'], e['line']), 'a grant may be released only by its guard\'s destructor or move assignment')
                 else:
@@ -1203,3 +1317,8 @@ class WordLockRules(LockModel):
                 okf = self.eng.is_spin_function(f)
                 self.sink.emit('C02.SPINFN', 'ok' if okf else 'violated', 'SpinWithBackoff instance @%s' % k.split('lambda at ')[-1].split(')')[0].split('/')[-1],
                                '%s:%s' % (f['file'], f['line']), self.eng.spin_reason(f))
+                if okf:
+                    rk, rd = self.eng.spin_rounds(f)
+                    self.sink.emit('C02.SPINFN', 'ok' if rk else ('violated' if rk is False else 'unsupported'),
+                                   'SpinWithBackoff instance @%s calls its procedure in every round' % k.split('lambda at ')[-1].split(')')[0].split('/')[-1],
+                                   '%s:%s' % (f['file'], f['line']), rd)
